@@ -661,3 +661,129 @@ class ProcessSpawn(object):
         if (kw.get('stdout') == -1) != inp['pipe_stdout'] or (kw.get('stderr') == -1) != inp['pipe_stderr']:
             bad.add('post[pipes-as-configured]')
         return bad
+
+
+# ---------------------------------------------------------------------------- Watcher.reap_processes
+@register('circus.watcher:Watcher.reap_processes')
+class WatcherReapProcesses(object):
+    """real Watcher.reap_processes over fake workers; real reap_process with waitpid answered from a fake child table"""
+    def from_model(self, m):
+        return []
+
+    def enumerate(self):
+        for status in ('active', 'stopping', 'stopped'):
+            for n in (0, 1, 3):
+                for stopping in ('none', 'first', 'all'):
+                    yield {'status': status, 'n': n, 'stopping': stopping}
+
+    def run(self, inp):
+        import circus.watcher as W
+        import errno
+        fk = FakeKernel()
+        w = real_watcher()
+        w._status = inp['status']
+        procs = {}
+        for i in range(inp['n']):
+            p = FakeProcess(fk, 500 + i, dies_at=0.0)
+            p.status = 1
+            p.returncode = lambda: 0
+            p.stopping = (inp['stopping'] == 'all') or (inp['stopping'] == 'first' and i == 0)
+            procs[p.pid] = p
+        w.processes = dict(procs)
+        events = []
+        w.notify_event = lambda topic, msg: events.append((topic, msg.get('process_pid')))
+        reaped = set()
+
+        def fake_waitpid(pid, options):
+            if pid in reaped or pid not in procs:
+                raise OSError(errno.ECHILD, 'No child processes')
+            reaped.add(pid)
+            return (pid, 0)
+        saved_os = W.os
+
+        class OSP(object):
+            waitpid = staticmethod(fake_waitpid)
+
+            def __getattr__(self, n):
+                return getattr(saved_os, n)
+        W.os = OSP()
+        obs = {}
+        try:
+            w.reap_processes()
+        except Exception as e:
+            obs['raised'] = type(e).__name__
+        finally:
+            W.os = saved_os
+        obs['listed'] = sorted(w.processes)
+        obs['reap_events'] = sorted(p for t, p in events if t == 'reap')
+        obs['unreaped'] = sorted(set(procs) - reaped)
+        return obs
+
+    def check(self, inp, obs):
+        bad = set()
+        if 'raised' in obs:
+            return set(['noescape'])
+        pids = [500 + i for i in range(inp['n'])]
+        if inp['status'] == 'stopped':
+            if obs['listed'] != pids or obs['reap_events']:
+                bad.add('post[0]')
+            return bad
+        if obs['listed'] or obs['reap_events'] != pids:
+            bad.add('post[1]')
+        if obs['unreaped']:
+            bad.add('post[2]')
+        return bad
+
+
+# ---------------------------------------------------------------------------- Watcher.send_signal
+@register('circus.watcher:Watcher.send_signal')
+class WatcherSendSignal(object):
+    def from_model(self, m):
+        return []
+
+    def enumerate(self):
+        for signum in (15, 9, 1):
+            for hook in ('none', 'true', 'false', 'raise'):
+                for listed in (True, False):
+                    yield {'signum': signum, 'hook': hook, 'listed': listed}
+
+    def run(self, inp):
+        fk = FakeKernel()
+        w = real_watcher()
+        p = FakeProcess(fk, 4242)
+        if inp['listed']:
+            w.processes = {4242: p}
+
+        def hook(*a, **kw):
+            if inp['hook'] == 'raise':
+                raise ValueError('no')
+            return inp['hook'] == 'true'
+        w.hooks = {} if inp['hook'] == 'none' else {'before_signal': hook}
+        w.notify_event = lambda topic, msg: None
+        obs = {}
+        try:
+            w.send_signal(4242, inp['signum'])
+        except Exception as e:
+            obs['raised'] = type(e).__name__
+        obs['signals'] = [list(s[:2]) for s in fk.signals]
+        return obs
+
+    def check(self, inp, obs):
+        bad = set()
+        if 'raised' in obs:
+            return set(['noescape'])
+        sigs = obs['signals']
+        if not inp['listed']:
+            if sigs:
+                bad.add('post[0]')
+            return bad
+        if len(sigs) > 1:
+            bad.add('post[1]')
+        if sigs and sigs[0] != [4242, inp['signum']]:
+            bad.add('post[2]')
+        # before_signal is in ignore_hook_failure by default: a raising hook counts as true
+        gate = inp['hook'] in ('none', 'true', 'raise')
+        want = inp['signum'] == 9 or gate
+        if bool(sigs) != want:
+            bad.add('post[3]')
+        return bad
